@@ -28,6 +28,8 @@ def labels(out):
 
 def check(prop, env):
     r = subprocess.run([str(ROOT / "check"), prop], capture_output=True, text=True, env=env, cwd=ROOT)
+    if "is not claimed" in r.stdout or r.returncode == 3 and not labels(r.stdout):
+        return 3, {"CHECKER-ERROR " + r.stdout.strip()[-120:]}
     return r.returncode, labels(r.stdout)
 
 
@@ -40,6 +42,8 @@ def main():
     prop = args[0]
     base_rc, base = check(prop, dict(os.environ, PYVC_NO_EVIDENCE="1"))
     print(f"baseline: exit {base_rc}, failing clauses: {sorted(base)}")
+    if base_rc == 3:
+        return 3
 
     def run(m):
         _, rel, pat, rep = m[:4]
